@@ -6,6 +6,7 @@
            | emitted: list of id;  err (mode 0: 0 nil, 1 cancelled, 2 datasource error; else 0 nil, 1 non-nil)
              terminated (Next false afterwards, goroutine gone within the deadline)
    codes: 1 = model <> implementation, 2 = property oracle fails on the observation,
+          3 = the rank and the closure reading of acyclicity differ (oracle self-check),
           0 = case does not parse. *)
 From Coq Require Import ZArith List Bool.
 From Verif Require Import Base.Wire C14.Model.
@@ -48,7 +49,9 @@ Definition check_order : P (list Z) :=
         then forallb (fun r => negb (has_history ds r) || memZ r seq) reqs else true)
     && (if mode =? 0 then (err =? 0) || ((err =? 2) && has_err) else negb (err =? 0))
     && (if acyclicb ds ids then children_firstb ds n [] seq else true) in
-  ret (code_if j1 1 ++ code_if j2 2)%list.
+  (* 3: the two executable readings of "acyclic" (rank / closure) agree on this graph *)
+  let j3 := Bool.eqb (acyclicb ds ids) (acyclic_closureb ds ids) in
+  ret (code_if j1 1 ++ code_if j2 2 ++ code_if j3 3)%list.
 
 Definition check_case (t : toks) : list Z :=
   match t with
